@@ -26,7 +26,8 @@ for wt in $WTS; do
 done
 wait
 for wt in $WTS; do
-  for d in $wt/seeded/*/; do id=$(basename $d); [ -f $d/meta.json ] && cp $d/meta.json $V/seeded/$id/meta.json; done
+  # only the seeds this worktree ran (its other meta.json files are the checkout's copies)
+  for id in $(awk '{print $1}' $wt/build/seed_sweep.log); do [ -d $V/seeded/$id ] && cp $wt/seeded/$id/meta.json $V/seeded/$id/meta.json; done
   cat $wt/build/seed_sweep.log
 done > $V/build/final_seed_sweep.log
 echo FINALSWEEPDONE
